@@ -3,7 +3,7 @@ from symx.api import And, Iff, Implies, Instance, Ite, Not, Or
 
 META = {
     "bounds": {
-        "stream": "N fully symbolic bytes: N <= 2 (quick) / 3 (thorough) with an arbitrary first byte; ESC- and CSI-prefixed streams of 2 (quick) / up to 3 (thorough) further symbolic bytes; "
+        "stream": "N fully symbolic bytes: N <= 2 with an arbitrary first byte (N = 3 did not finish in 30 minutes); ESC- and CSI-prefixed streams of 2 (quick) / up to 3 (thorough) further symbolic bytes; "
                   "table-driven: every entry of input_sequences between one symbolic byte before and after; mouse / cursor reports with symbolic digit bytes",
         "cuts": "every cut point of the stream into two reads, timeout firing or not after the cut",
     },
@@ -17,7 +17,7 @@ def instances(tier):
     q = tier == "quick"
     out = []
     for enc in ("utf8", "narrow", "wide"):
-        for n in ((1, 2) if q else (1, 2, 3)):
+        for n in (1, 2):
             out.append(Instance("any.%s.n%d" % (enc, n), "h_stream", {"enc": enc, "n": n, "prefix": []}, timeout=900 if q else 3000))
     for n in ((2,) if q else (2, 3)):
         out.append(Instance("esc.utf8.n%d" % (n + 1), "h_stream", {"enc": "utf8", "n": n, "prefix": [27]}, timeout=900 if q else 3000))
